@@ -8,32 +8,101 @@ Open Scope Z_scope.
 (* every sequence of insertions, replacements, forced insertions, momentum inserts and deletes keeps, per account,
    a single hash-linked chain: confirmed blocks, then the pooled blocks on top of the last confirmed one *)
 Theorem C14_single_chain : forall ops a,
-  wf a -> Forall wf_op ops -> Z.of_nat (length (rchain a) + length ops) < two63 -> wf (run a ops).
+  wf a -> Forall wf_op ops -> Z.of_nat (length (rchain a) + ops_size ops) < two63 -> wf (run a ops).
 Proof. exact run_wf. Qed.
 
-(* no operation reaches higherPriority(block, nil) or fails to pop: the decision procedure is total; the only failure is
-   the rebuild after a momentum that confirmed a PART of a contract's batch (the account's pool is then dropped) *)
+(* no operation reaches higherPriority(block, nil): the decision procedure is total. The only failures: the rebuild after
+   a momentum that confirmed a PART of a contract's batch, and the pop loop for a candidate whose parent is a contract
+   send INSIDE a pooled batch (no version of the account ends there; the supervisor never lets such a block through): in
+   both cases the account's pool is dropped, what is left is still a chain *)
 Theorem C14_step_total : forall a o, wf a -> wf_op o -> Z.of_nat (length (rchain a)) < two63 ->
-  wf (fst (step a o)) /\ (length (rchain (fst (step a o))) <= S (length (rchain a)))%nat /\
-  snd (step a o) <> RPanic /\ (snd (step a o) = RErrPop -> exists k, o = OMomentum k /\ ~ aligned a k).
+  wf (fst (step a o)) /\ (length (rchain (fst (step a o))) <= op_size o + length (rchain a))%nat /\
+  snd (step a o) <> RPanic /\
+  (snd (step a o) = RErrPop -> (exists k, o = OMomentum k /\ ~ aligned a k) \/
+     (exists force descs b p, step a o = add_tx force a descs b /\ by_height (rchain a) (u64 (bheight b - 1)) = Some p /\
+                              bsend p = true /\ Z.of_nat (sh a) < bheight p)).
 Proof. exact step_wf. Qed.
 
 (* a confirmed block is never displaced by a pool operation; only a momentum extends and only a momentum delete shortens it *)
 Theorem C14_confirmed_never_displaced : forall a o, wf a -> wf_op o -> Z.of_nat (length (rchain a)) < two63 ->
   match o with
-  | OAdd _ _ => confirmed (fst (step a o)) = confirmed a
-  | OMomentum _ => exists newly, confirmed (fst (step a o)) = newly ++ confirmed a
+  | OAdd _ _ | OAddTx _ _ _ => confirmed (fst (step a o)) = confirmed a
+  | OMomentum _ | OConfirm _ => exists newly, confirmed (fst (step a o)) = newly ++ confirmed a
   | ODelete _ => exists dropped, confirmed a = dropped ++ confirmed (fst (step a o))
   end.
 Proof. exact confirmed_never_displaced. Qed.
 
-(* an accepted block becomes the frontier; a rejected one changes nothing *)
+(* an accepted block becomes the frontier; a rejected one changes nothing - unless its parent is a contract send inside a
+   pooled batch (RErrPop: the pool of the account is dropped) *)
 Theorem C14_add_effect : forall force a b a' r, wf a -> in_u64 (bheight b) -> Z.of_nat (length (rchain a)) < two63 ->
   add force a b = (a', r) ->
-  wf a' /\ sh a' = sh a /\ confirmed a' = confirmed a /\ r <> RPanic /\ r <> RErrPop /\
+  wf a' /\ sh a' = sh a /\ confirmed a' = confirmed a /\ r <> RPanic /\
   (length (rchain a') <= S (length (rchain a)))%nat /\
-  (r = ROk -> frontier_id (rchain a') = id_of b) /\ (r <> ROk -> a' = a).
+  (r = ROk -> frontier_id (rchain a') = id_of b) /\ (r <> ROk -> r <> RErrPop -> a' = a) /\
+  (r = RErrPop -> rchain a' = confirmed a /\
+     exists p, by_height (rchain a) (u64 (bheight b - 1)) = Some p /\ id_of p = prev_of b /\ bsend p = true /\ Z.of_nat (sh a) < bheight p).
 Proof. exact add_spec. Qed.
+(* ... which cannot happen on an account without contract sends (every user account): a rejected block changes nothing *)
+Theorem C14_add_effect_without_batches : forall force a b a' r, wf a -> in_u64 (bheight b) -> Z.of_nat (length (rchain a)) < two63 ->
+  no_sends a -> add force a b = (a', r) -> r <> RErrPop /\ (r <> ROk -> a' = a).
+Proof. exact add_no_sends. Qed.
+(* the record of the observation: pooled batch (send 33, receive 44) on the pooled receive 22; a candidate for height 4
+   whose parent is the send 33 passes canRollback, the loop pops the batch, then 22, and fails at the stable version *)
+Theorem C14_reject_changes_nothing_refuted : exists force a b, wf a /\ in_u64 (bheight b) /\
+  snd (add force a b) = RErrPop /\ pooled a <> [] /\ pooled (fst (add force a b)) = [].
+Proof.
+  exists false, (mkAcct [mkBlock 44 33 4 0 0 false; mkBlock 33 22 3 0 0 true; mkBlock 22 11 2 0 0 false; mkBlock 11 0 1 0 0 false] 1),
+         (mkBlock 5 33 4 0 0 false).
+  split; [unfold wf; cbn; repeat split; lia|]. split; [unfold in_u64, two64; cbn; lia|].
+  split; [vm_compute; reflexivity|split; [discriminate|vm_compute; reflexivity]].
+Qed.
+
+(* TRANSACTIONS that span several heights (a contract receive with its descendant sends is one transaction of the version
+   manager, one Pop removes all of it): an accepted transaction - fast-forward, winner at any unconfirmed height, forced -
+   becomes the top of the chain on the untouched blocks below its first height; exactly the unconfirmed blocks from that
+   height up are dropped, whole transactions of them; a transaction WITH descendants is only ever installed by
+   fast-forward (canRollback compares the block at the receive's height - 1 with the parent of the whole batch) *)
+Theorem C14_transaction_replacement_is_exactly_the_suffix : forall force a descs b a', wf a -> wf_tx descs b -> Z.of_nat (length (rchain a)) < two63 ->
+  add_tx force a descs b = (a', ROk) ->
+  exists dropped below, rchain a = dropped ++ below /\ rchain a' = b :: rev descs ++ below /\
+    frontier_id below = prev_of (tx_first descs b) /\ (length dropped <= length (rchain a) - sh a)%nat /\
+    Forall (fun x => bheight (tx_first descs b) <= bheight x) dropped /\ (descs <> [] -> dropped = []).
+Proof. exact add_tx_replaces_suffix. Qed.
+(* the candidate of seed C14_10's demonstration: confirmed S(1); pooled receive R0(2) and the batch [send D(3), receive
+   R1(4)]; X(3) on R0 with a smaller hash than D replaces the whole batch and nothing else *)
+Example C14_replace_below_batch :
+  let s1 := mkBlock 50 0 1 0 0 false in
+  let r0 := mkBlock 60 50 2 0 0 false in
+  let d := mkBlock 70 60 3 0 0 true in
+  let r1 := mkBlock 80 70 4 0 0 false in
+  let x := mkBlock 10 60 3 0 0 false in
+  add false (mkAcct [r1; d; r0; s1] 1) x = (mkAcct [x; r0; s1] 1, ROk) /\
+  add_tx true (mkAcct [r0; s1] 1) [d] r1 = (mkAcct [r1; d; r0; s1] 1, ROk).
+Proof. split; vm_compute; reflexivity. Qed.
+
+(* THE PILLAR RACE: the pillar's own momentum is inserted after the pool has replaced blocks it was generated with. It
+   confirms `newly` (which continue the confirmed chain) whatever the pool holds at these heights. Afterwards the pool
+   holds only previously pooled blocks above the new confirmed height, on top of the new confirmed chain (one linked
+   chain), and NOTHING when the previously pooled block right above the new frontier is not its child *)
+Theorem C14_own_momentum_after_displacement : forall a newly, wf a -> links_on (frontier_id (confirmed a)) newly = true ->
+  let a' := fst (step a (OConfirm newly)) in
+  let ns := rev newly ++ confirmed a in
+  wf a' /\ snd (step a (OConfirm newly)) = ROk /\ sh a' = length ns /\
+  (exists top, rchain a' = top ++ ns /\ (length top <= length (rchain a) - sh a)%nat /\
+     forall x, In x top -> In x (pooled a) /\ Z.of_nat (length ns) < bheight x) /\
+  (forall x0, by_height (rchain a) (Z.of_nat (length ns) + 1) = Some x0 -> prev_of x0 <> frontier_id ns -> rchain a' = ns).
+Proof. exact confirm_spec. Qed.
+(* B1 (22) was in the generated momentum; the pool replaced it by B2 (99) and got B3 (33) on top; the momentum confirms
+   B1: B3 does not link any more, the pool is empty. And when the pool still holds B1 and a child, the child stays *)
+Example C14_displaced_block_confirmed :
+  let g1 := mkBlock 11 0 1 0 0 false in
+  let b1 := mkBlock 22 11 2 21000 21000 false in
+  let b2 := mkBlock 99 11 2 42000 21000 false in
+  let b3 := mkBlock 33 99 3 21000 21000 false in
+  let c3 := mkBlock 44 22 3 21000 21000 false in
+  step (mkAcct [b3; b2; g1] 1) (OConfirm [b1]) = (mkAcct [b1; g1] 2, ROk) /\
+  step (mkAcct [c3; b1; g1] 1) (OConfirm [b1]) = (mkAcct [c3; b1; g1] 2, ROk).
+Proof. split; vm_compute; reflexivity. Qed.
 
 (* the rule between two candidates for a height is antisymmetric ... *)
 Theorem C14_priority_antisym : forall a b, ~ (wins a b /\ wins b a).
